@@ -6,6 +6,7 @@ import (
 	"bytes"
 	"fmt"
 	"math/rand"
+	"sort"
 	"strings"
 	"unicode/utf8"
 
@@ -23,7 +24,17 @@ type c16recipe struct {
 	conflict    bool     // outputs are not a function of the script alone (a golden compared against two different outputs, or an updated entry used as an output)
 	totalLines  int
 	lastLineRun int
+	dupGolden   bool   // the archive names a golden file twice: only the last entry of a name is unpacked, read and asserted
+	setupCd     string // Params.Setup moved env.Cd to this directory before the script started
 }
+
+// gen16Opts: variations of the C16 generator (extra cases after the plain ones).
+type gen16Opts struct {
+	dupGolden bool // one golden name occurs twice in the archive
+	setupCd   bool // a Setup hook sets env.Cd to a directory the archive creates (oracle-only: not modelled)
+}
+
+func genC16(rng *rand.Rand) *tcase { return genC16opt(rng, gen16Opts{}) }
 
 // content of an actual output: lines joined by '\n', plus a final '\n' when nl
 type content struct {
@@ -83,7 +94,7 @@ func quotable(c string) bool {
 	return (c == "" || strings.HasSuffix(c, "\n")) && utf8.ValidString(c)
 }
 
-func genC16(rng *rand.Rand) *tcase {
+func genC16opt(rng *rand.Rand, o gen16Opts) *tcase {
 	g := &gen{rng: rng, st: newGst()}
 	builtinOnly := g.chance(30)
 	g.fl = flags{update: true, cont: g.chance(50), customCmds: !builtinOnly, customCond: !builtinOnly && g.chance(20)}
@@ -112,10 +123,55 @@ func genC16(rng *rand.Rand) *tcase {
 	if g.chance(50) { // interleave: order must be preserved
 		g.rng.Shuffle(len(a.Files), func(i, j int) { a.Files[i], a.Files[j] = a.Files[j], a.Files[i] })
 	}
+	if o.dupGolden {
+		// a second entry under the name of a golden, anywhere in the archive: the files are unpacked in
+		// order, so the LAST entry of a name is what the script reads (the loop below keeps that one)
+		name := g.pick(goldens)
+		body := g.pick([]string{"shadow\n", "", "hello\n", "old\ncontent\n", "x\n"})
+		at := g.rng.Intn(len(a.Files) + 1)
+		a.Files = append(a.Files[:at:at], append([]txtar.File{{Name: name, Data: []byte(body)}}, a.Files[at:]...)...)
+		rec.dupGolden = true
+		tags = append(tags, "dup-golden")
+	}
+	if o.setupCd {
+		// Params.Setup: "The Setup function may modify Vars and Cd as it wishes" — the script starts in a
+		// sub-directory of $WORK that the archive creates.  Which files are archive entries does not depend on that.
+		dirSet := map[string]bool{}
+		for _, f := range a.Files {
+			for d := parentOf(f.Name); d != ""; d = parentOf(d) {
+				dirSet[d] = true
+			}
+		}
+		if len(dirSet) == 0 {
+			a.Files = append(a.Files, txtar.File{Name: "sub/keep.txt", Data: []byte("keep\n")})
+			dirSet["sub"] = true
+		}
+		var dirs []string
+		for d := range dirSet {
+			dirs = append(dirs, d)
+		}
+		sort.Strings(dirs)
+		rec.setupCd = g.pick(dirs)
+		g.fl.setupCd = rec.setupCd
+		tags = append(tags, "setup-cd")
+		// bystanders: for an entry cd/x also an entry x — the file cd/x is NOT the entry x
+		have := map[string]bool{}
+		for _, f := range a.Files {
+			have[f.Name] = true
+		}
+		for _, f := range append([]txtar.File{}, a.Files...) {
+			if rest, ok := strings.CutPrefix(f.Name, rec.setupCd+"/"); ok && !have[rest] && g.chance(60) {
+				have[rest] = true
+				a.Files = append(a.Files, txtar.File{Name: rest, Data: []byte(g.pick([]string{"bystander\n", "hello\n", ""}))})
+				tags = append(tags, "setup-cd:entry-named-like-cd-relative-golden")
+			}
+		}
+	}
 	for _, f := range a.Files {
 		s.mkdirAll(parentOf(f.Name))
 		s.files[f.Name] = string(f.Data)
 	}
+	s.cd = rec.setupCd
 	inArchive := map[string]bool{}
 	for _, f := range a.Files {
 		inArchive[f.Name] = true
@@ -345,6 +401,12 @@ func genC16(rng *rand.Rand) *tcase {
 		case 7: // compared against a run-time copy outside the archive: a mismatch fails, no update
 			g.ctr++
 			rt := fmt.Sprintf("rt%d.txt", g.ctr)
+			if alt := joinCd(rec.setupCd, gname); rec.setupCd != "" && !s.exists(alt) && s.isDir(parentOf(alt)) && g.chance(70) {
+				// the run-time file sits where the entry would be if entry names were resolved against the
+				// directory Setup chose: still not a file of the archive
+				rt = alt
+				tags = append(tags, "setup-cd:outside-file-at-cd-relative-entry-name")
+			}
 			emit("cp " + g.rel(gname) + " " + g.rel(rt))
 			if alive {
 				s.files[rt] = gold
@@ -488,6 +550,10 @@ func c16Oracle(res *corr.Result, c *tcase, in string, got obs, rerun *obs) {
 		res.Violate("C16", in, fmt.Sprintf("number of entries changed %d -> %d", len(before.Files), len(after.Files)), "entries-changed")
 		return
 	}
+	lastOf := map[string]int{} // an archive may name a file twice: the last entry is the one that is unpacked and read
+	for i, f := range before.Files {
+		lastOf[f.Name] = i
+	}
 	for i := range before.Files {
 		bf, af := before.Files[i], after.Files[i]
 		if bf.Name != af.Name {
@@ -495,6 +561,12 @@ func c16Oracle(res *corr.Result, c *tcase, in string, got obs, rerun *obs) {
 			return
 		}
 		if act, ok := rec.updates[bf.Name]; ok {
+			if lastOf[bf.Name] != i {
+				// an earlier entry of the same name: the code rewrites it too; the property speaks of "this
+				// entry" only — noted, not asserted either way
+				res.Distribution["c16:shadowed-duplicate-entry-not-asserted"]++
+				continue
+			}
 			want := []byte(act)
 			if txtar.NeedsQuote(want) {
 				want, _ = txtar.Quote(want)
